@@ -11,7 +11,7 @@ Cases == JsonDeserialize(IOEnv.CASES)
 \* the rung of the worker's ladder that ends a body of this kind (Termination!ExpectedRung) and its deadline in ticks
 \* ("sending": blocked in a pipe write; a dead initiator breaks the pipe at once, an initiator that merely closed its
 \*  sending side but stays alive leaves the writer blocked until the SIGINT rung)
-RungOf2(env, death) == CASE env \in {"idle", "receive", "thread", "cbdropped"} -> "eof"
+RungOf2(env, death) == CASE env \in {"idle", "receive", "thread", "cbdropped", "nondaemon", "atexit_hang"} -> "eof"
                  [] env = "sending" -> (IF death = "close" THEN "sigint" ELSE "eof")
                  [] env \in {"busy", "sleep"} -> "sigint"
                  [] OTHER -> "hardexit"
@@ -25,6 +25,9 @@ Cooperative(env) == env \in {"idle", "receive", "sending", "cbdropped"}
 OrphanVerdict(c) ==
   IF c.execmodel = "gevent" /\ ~Cooperative(c.env) /\ (c.gone_ms = -1 \/ c.gone_ms > Deadline(c) + Slack(c))
      THEN "C11.gevent-worker-with-non-cooperative-body-never-notices"
+  \* the remote code has returned, but it left a non-daemon thread or a blocking exit hook behind: serve() returns, the interpreter never exits
+  ELSE IF c.env \in {"nondaemon", "atexit_hang"} /\ (c.gone_ms = -1 \/ c.gone_ms > Deadline(c) + Slack(c))
+     THEN "C11.worker-kept-alive-by-a-thread-or-exit-hook-of-the-remote-code"
   ELSE IF c.gone_ms = -1 THEN "C11.worker-outlived-its-initiator"
   ELSE IF c.gone_ms > Deadline(c) + Slack(c) THEN "C11.worker-terminated-later-than-its-rung-allows"
   ELSE "ok"
